@@ -446,3 +446,42 @@ mod tests {
         assert!(!formattable_file_path(&PathBuf::from(path)));
     }
 }
+
+/// Verification hooks (feature `pasfmt_verif`): forwarding wrappers.
+#[cfg(feature = "pasfmt_verif")]
+pub mod verif_hooks_file {
+    use super::*;
+
+    pub fn encode_utf16le(data: &str) -> Vec<u8> {
+        FileFormatter::encode_utf16le(data)
+    }
+
+    pub fn encode_utf16be(data: &str) -> Vec<u8> {
+        FileFormatter::encode_utf16be(data)
+    }
+
+    pub fn encode<'a>(encoding: &'static Encoding, data: &'a str) -> io::Result<Cow<'a, [u8]>> {
+        FileFormatter::encode(encoding, data)
+    }
+
+    pub fn write(
+        write: impl Write,
+        encoding: &'static Encoding,
+        bom: Option<&[u8]>,
+        data: &str,
+    ) -> std::io::Result<u64> {
+        FileFormatter::write(write, encoding, bom, data)
+    }
+
+    /// (bom, contents, encoding)
+    pub type Decoded<'a> = (Option<&'a [u8]>, Cow<'a, str>, &'static Encoding);
+
+    pub fn decode_file<'a>(
+        file_formatter: &FileFormatter,
+        file: impl Read,
+        buf: &'a mut Vec<u8>,
+    ) -> anyhow::Result<Decoded<'a>> {
+        let d = file_formatter.decode_file(file, "<verif>", buf)?;
+        Ok((d.bom, d.contents, d.encoding))
+    }
+}
